@@ -26,7 +26,8 @@ TypeCat == [a |-> <<>>, b |-> <<>>, h |-> <<>>,
             c |-> <<"missing-in-choice", "missing-in-choice">>,       \* two `@x | @y` properties, nothing registered
             o |-> <<"missing-in-or", "value-in-or">>,                  \* two `or` rule-sets, each with its own defect
             x |-> <<"value", "value">>,                                \* two properties whose examples break their rules
-            g |-> <<"inherits-non-object">>]                           \* allOf of a scalar type: refused while merging
+            g |-> <<"inherits-non-object">>,                           \* allOf of a scalar type: refused while merging
+            f |-> <<"rule-not-admitted", "rule-not-admitted">>]        \* two rules a format type does not admit, on one node
 TypeIds == DOMAIN TypeCat
 \* root mentions no type / @a / every registered name / has two defective choices of its own
 Roots == {"plain", "refs-a", "refs-all", "two-choices"}
@@ -44,7 +45,7 @@ Register(t) == /\ ~done /\ t \notin Range(order) /\ Len(order) < MaxTypes
 
 Broken(S) == {t \in S : TypeCat[t] # <<>>}
 \* total order on names used by the sorted walk (internal types of the root come first)
-Rank == [a |-> 1, b |-> 2, c |-> 3, g |-> 4, h |-> 5, m |-> 6, o |-> 7, r |-> 8, v |-> 9, w |-> 10, x |-> 11]
+Rank == [a |-> 1, b |-> 2, c |-> 3, f |-> 4, g |-> 5, h |-> 6, m |-> 7, o |-> 8, r |-> 9, v |-> 10, w |-> 11, x |-> 12]
 Least(S) == CHOOSE t \in S : \A u \in S : Rank[t] <= Rank[u]
 Place(t, i) == <<t, i>>
 
